@@ -141,6 +141,12 @@ def compute_embedding_norm_sample(
     summed_gradients = summed_gradients.index_add(
         0, new_index_positions.to(device), grad_values
     )
+    if layer.scale_grad_by_freq:
+        # the gradient of a row is divided by the number of times the sample uses it
+        counts = torch.bincount(
+            new_index_positions.reshape(-1), minlength=num_unique_paired_indices
+        )
+        summed_gradients = summed_gradients / counts.unsqueeze(-1)
     sqr_gradient_sum = torch.sum(summed_gradients**2, dim=1)
 
     # Scatter add the squared sums back to their respective rows
